@@ -99,4 +99,8 @@ def run_script(script, args=(), asan=False, timeout=3600, input_json=None):
         data = json.loads(out.splitlines()[-1]) if out else None
     except Exception:
         data = None
-    return {"returncode": r.returncode, "json": data, "stdout": out[-4000:], "stderr": r.stderr[-4000:]}
+    err = r.stderr
+    if len(err) > 8000:
+        cases = [l for l in err.splitlines() if l.startswith("CASE ")]
+        err = (cases[-1] + "\n" if cases else "") + err[-7000:]
+    return {"returncode": r.returncode, "json": data, "stdout": out[-4000:], "stderr": err}
